@@ -2,6 +2,7 @@ package world
 
 import (
 	"fmt"
+	"hash/fnv"
 	"reflect"
 
 	"gorgonia.org/tensor"
@@ -352,6 +353,32 @@ func mkSlices(args [][]int) []tensor.Slice {
 	return out
 }
 
+// sliceVia takes the slice through one of the entry points of the API (chosen by the content of the call, so that
+// every run makes the same choice): Slice, SliceInto (a caller-provided *Dense receives the view), or - for a single
+// unit-step range - Narrow.
+func (w *World) sliceVia(src *tensor.Dense, sl [][]int, st *Step) (tensor.View, error) {
+	h := fnv.New32a()
+	h.Write(st.Op.A)
+	h.Write([]byte(w.Cfg.D.Name))
+	switch (int(h.Sum32()&0xffff) + st.Op.H) % 4 {
+	case 1:
+		into := tensor.New(tensor.Of(src.Dtype()), tensor.WithShape(1))
+		return src.SliceInto(into, mkSlices(sl)...)
+	case 2:
+		// Narrow(dim, start, length) == the range [start, start+length) on one axis, every other axis whole
+		dim, n := -1, 0
+		for i, a := range sl {
+			if a[0] != 0 {
+				dim, n = i, n+1
+			}
+		}
+		if n == 1 && sl[dim][0] == 2 && sl[dim][3] == 1 && sl[dim][2] > sl[dim][1] && dim == len(sl)-1 {
+			return src.Narrow(dim, sl[dim][1], sl[dim][2]-sl[dim][1])
+		}
+	}
+	return src.Slice(mkSlices(sl)...)
+}
+
 func opSlice(w *World, st *Step) execResult {
 	sl := decodeIntss(st.Op.A)
 	src := w.T(st.Op.H)
@@ -360,7 +387,7 @@ func opSlice(w *World, st *Step) execResult {
 	if w.Cfg.Calc {
 		calcShape, calcErr = src.Shape().Clone().S(mkSlices(sl)...)
 	}
-	v, err := src.Slice(mkSlices(sl)...)
+	v, err := w.sliceVia(src, sl, st)
 	if w.Cfg.Calc && st.Res.St != "free" {
 		w.Stats.Compared++
 		switch {
